@@ -50,6 +50,10 @@ pub struct Workload {
     pub sched: Sched,
     pub sched_seed: u64,
     pub schedules: u16,
+    /// catalogs and key sets are replaced by two different threads (as independent callers of
+    /// set_catalog and set_tsig_keys would) instead of one
+    #[serde(default)]
+    pub two_swappers: bool,
 }
 
 fn a_query() -> impl Strategy<Value = Query> {
@@ -64,8 +68,9 @@ pub fn workload(schedules: u16) -> impl Strategy<Value = Workload> {
         prop::collection::vec(prop::collection::vec(a_query(), 1..=3), 2..=3),
         prop_oneof![3 => Just(Sched::Random), 1 => (1u8..5).prop_map(Sched::Pct)],
         any::<u64>(),
+        any::<bool>(),
     )
-        .prop_map(move |(generations, catalog_first, swapper_yields, queriers, sched, sched_seed)| Workload {
+        .prop_map(move |(generations, catalog_first, swapper_yields, queriers, sched, sched_seed, two_swappers)| Workload {
             generations,
             catalog_first,
             swapper_yields,
@@ -73,6 +78,7 @@ pub fn workload(schedules: u16) -> impl Strategy<Value = Workload> {
             sched,
             sched_seed,
             schedules,
+            two_swappers,
         })
 }
 
@@ -223,7 +229,9 @@ fn execution(w: &Workload, cats: &Arc<Vec<Arc<Cat>>>, agg: &Arc<Mutex<Agg>>) {
         let prog = prog.clone();
         let cats = cats.clone();
         let w = w.clone();
-        handles.push(shuttle::thread::spawn(move || {
+        let two = w.two_swappers;
+        // which = 0: both replacements on one thread; 1: catalogs only; 2: key sets only
+        let swapper = move |which: u8| {
             for g in 2..=(w.generations as u64) {
                 for _ in 0..w.swapper_yields {
                     shuttle::thread::yield_now();
@@ -239,15 +247,27 @@ fn execution(w: &Workload, cats: &Arc<Vec<Arc<Cat>>>, agg: &Arc<Mutex<Agg>>) {
                     server.set_tsig_keys(keys(g as u32));
                     prog.key_installed.store(g, Ordering::SeqCst);
                 };
-                if cat_first {
-                    do_cat(&server);
-                    do_keys(&server);
-                } else {
-                    do_keys(&server);
-                    do_cat(&server);
+                match (which, cat_first) {
+                    (1, _) => do_cat(&server),
+                    (2, _) => do_keys(&server),
+                    (_, true) => {
+                        do_cat(&server);
+                        do_keys(&server);
+                    }
+                    (_, false) => {
+                        do_keys(&server);
+                        do_cat(&server);
+                    }
                 }
             }
-        }));
+        };
+        if two {
+            let (a, b) = (swapper.clone(), swapper);
+            handles.push(shuttle::thread::spawn(move || a(1)));
+            handles.push(shuttle::thread::spawn(move || b(2)));
+        } else {
+            handles.push(shuttle::thread::spawn(move || swapper(0)));
+        }
     }
     for (qi, qs) in w.queriers.iter().enumerate() {
         let server = server.clone();
@@ -255,7 +275,30 @@ fn execution(w: &Workload, cats: &Arc<Vec<Arc<Cat>>>, agg: &Arc<Mutex<Agg>>) {
         let qs = qs.clone();
         let swapped_during = swapped_during.clone();
         let stats = stats.clone();
-        handles.push(shuttle::thread::spawn(move || {
+        handles.push(shuttle::thread::spawn(move || querier(&server, &prog, &qs, qi, &swapped_during, &stats)));
+    }
+    for h in handles {
+        h.join().expect("thread panicked");
+    }
+    // after every replacement has returned: the brackets are exact, the newest generations must be in use
+    let last = [Query { kind: 0, signed_back: None, tcp: false }, Query { kind: 4, signed_back: Some(0), tcp: true }];
+    querier(&server, &prog, &last, 9, &swapped_during, &stats);
+    let mut a = agg.lock().unwrap();
+    a.completed += 1;
+    let n = swapped_during.load(Ordering::SeqCst);
+    a.swaps_during_a_request += n;
+    if n > 0 {
+        a.execs_with_swap_during_request += 1;
+    }
+    let s = stats.lock().unwrap();
+    a.authenticated += s.0;
+    a.rejected += s.1;
+    a.responses += s.2;
+}
+
+fn querier(server: &Arc<Server<Cat>>, prog: &Arc<Progress>, qs: &[Query], qi: usize, swapped_during: &Arc<AtomicU64>, stats: &Arc<Mutex<(u64, u64, u64)>>) {
+    {
+        {
             let source = IpAddr::V4(Ipv4Addr::new(192, 0, 2, 10 + qi as u8));
             let mut buf = vec![0u8; 65535];
             for (k, q) in qs.iter().enumerate() {
@@ -387,22 +430,8 @@ fn execution(w: &Workload, cats: &Arc<Vec<Arc<Cat>>>, agg: &Arc<Mutex<Agg>>) {
                     stats.lock().unwrap().2 += 1;
                 }
             }
-        }));
+        }
     }
-    for h in handles {
-        h.join().expect("thread panicked");
-    }
-    let mut a = agg.lock().unwrap();
-    a.completed += 1;
-    let n = swapped_during.load(Ordering::SeqCst);
-    a.swaps_during_a_request += n;
-    if n > 0 {
-        a.execs_with_swap_during_request += 1;
-    }
-    let s = stats.lock().unwrap();
-    a.authenticated += s.0;
-    a.rejected += s.1;
-    a.responses += s.2;
 }
 
 const MAX_STEPS: usize = 50_000;
@@ -424,6 +453,7 @@ pub fn oracle(w: &Workload, st: &mut Stats) -> Verdict {
     st.class_n("signed-requests-verified", a.authenticated);
     st.class_n("signed-requests-rejected-consistently", a.rejected);
     st.class_n("complete-answers-checked", a.responses);
+    st.class(if w.two_swappers { "catalogs-and-key-sets-replaced-by-two-threads" } else { "catalogs-and-key-sets-replaced-by-one-thread" });
     if a.execs_with_swap_during_request > 0 {
         st.nontrivial(&(w, "swap-during-request"), || {
             json!({"workload": w, "executions_with_a_swap_between_a_requests_start_and_end": a.execs_with_swap_during_request})
